@@ -76,8 +76,10 @@ def go_build(cmd_name, tags="verif", extra_ldflags=""):
 
 def coq_make(targets, timeout=1500):
     """Full .vo build of the given targets. Returns (ok, output)."""
-    sh([os.path.join(COQ, "mkproject.sh")])
-    p = sh(["make", "-j16"] + targets, cwd=COQ, timeout=timeout, check=False)
+    os.makedirs(WORK, exist_ok=True)
+    lock = os.path.join(WORK, "coq.lock")     # several checks may run at once; one make at a time
+    p = sh("flock %s sh -c './mkproject.sh && make -j16 %s'" % (lock, " ".join(targets)),
+           cwd=COQ, timeout=timeout, check=False)
     return p.returncode == 0, p.stdout
 
 
@@ -158,8 +160,10 @@ def ocaml_build(area, extract_v):
     """Extract (coqc run inside ocaml/<area>/ so model.ml lands there) and build the runner."""
     d = os.path.join(OCAML, area)
     src = os.path.join(COQ, extract_v)
-    sh(["coqc", "-Q", COQ, "SSV", src], cwd=d, timeout=900)
-    sh(["dune", "build", "./%s/run.exe" % area], cwd=OCAML, timeout=900)
+    os.makedirs(WORK, exist_ok=True)
+    lock = os.path.join(WORK, "ocaml.lock")
+    sh(["flock", lock, "coqc", "-Q", COQ, "SSV", src], cwd=d, timeout=900)
+    sh(["flock", lock, "dune", "build", "./%s/run.exe" % area], cwd=OCAML, timeout=900)
     return os.path.join(OCAML, "_build", "default", area, "run.exe")
 
 
